@@ -37,6 +37,7 @@ def assume(a, ps, vmax, kinds, tier='thorough', zero=False):
     A.append(z3.Or(*[a[9] == k for k in kinds]))
     A += [z3.ULT(a[10], 5), z3.ULE(a[11], 7)] + ([z3.UGE(a[10], 1)] if not zero else [z3.Or(a[3] == 0, a[10] == 0)])
     A.append(z3.Implies(a[9] != 3, a[10] == (0 if zero else 1)))
+    A.append(z3.ULE(a[19], 1) if zero else a[19] == 0)
     return A
 
 
@@ -46,11 +47,11 @@ def slices(tier, rng):
     for ps in (4, 8):
         # quick: by-value and array embedding at one width each; thorough: everything at both widths
         kinds = [0, 1, 3] if tier != 'quick' else ([0, 3] if ps == 4 else [0, 1])
-        out.append(Slice('nest-ps%d' % ps, 't_nest', 19, lambda a, ps=ps, kinds=kinds: assume(a, ps, vmax, kinds, tier),
+        out.append(Slice('nest-ps%d' % ps, 't_nest', 20, lambda a, ps=ps, kinds=kinds: assume(a, ps, vmax, kinds, tier),
                          opts={'summarize': ['gcd'], 'must_reach': ['ok', 'err']}))
     # zero-length arrays (a named [X; 0] or [I; 0] is a zero-sized field that still has its element's alignment)
     for ps in ((8,) if tier == 'quick' else (4, 8)):
-        out.append(Slice('nest-zero-ps%d' % ps, 't_nest', 19, lambda a, ps=ps: assume(a, ps, 1 << 3, [0, 3], tier, zero=True) + [a[4] == 0, a[8] == 0],
+        out.append(Slice('nest-zero-ps%d' % ps, 't_nest', 20, lambda a, ps=ps: assume(a, ps, 1 << 3, [0, 3], tier, zero=True) + [a[4] == 0, a[8] == 0],
                          opts={'summarize': ['gcd'], 'must_reach': ['ok', 'err']}))
     return out
 
